@@ -17,6 +17,69 @@ RETS = [0, 3515625, 900_000_000, 3_600_000_000, 86_400_000_000, -3_600_000_000] 
 KEY_SHARED = 1999
 
 
+class TraceLock:
+    """Records acquire/release of the real lock it wraps (run-time lock trace, compared with the E3 shape)."""
+
+    def __init__(self, real, log):
+        self.real, self.log = real, log
+
+    def acquire(self, *a, **k):
+        r = self.real.acquire(*a, **k)
+        self.log.append("acq")
+        return r
+
+    def release(self):
+        self.log.append("rel")
+        return self.real.release()
+
+    def __enter__(self):
+        self.acquire()
+        return self
+
+    def __exit__(self, *a):
+        self.release()
+
+
+def trace_is_path(facts, method, evs):
+    """Is the observed acquire/release sequence one of the finite paths of the extracted shape of `method`?
+    (python mirror of Operon.Lysosome.Path: calls taken or skipped, callback points run table methods 0..n times)"""
+    bodies = {n: ins for n, _pub, ins in facts["methods"]}
+    names = [n for n, _pub, _ins in facts["methods"]]
+    table = [names[j] for j in facts["table"]]
+    n = len(evs)
+
+    def run(body, starts, depth=0, in_cb=False):
+        pos = set(starts)
+        if depth > 12:
+            return pos
+        for ins in body:
+            new = set()
+            if ins in ("acq", "rel"):
+                new = {p + 1 for p in pos if p < n and evs[p] == ins}
+            elif ins == "cb" and in_cb:
+                new = set(pos)              # callbacks of callbacks: foreign code, no lock events of ours
+            elif ins == "cb":
+                new = set(pos)
+                while True:
+                    more = set()
+                    for m in table:
+                        more |= run(bodies[m], new, depth + 1, True)
+                    if more <= new:
+                        break
+                    new |= more
+            else:
+                new = set(pos) | run(bodies[names[int(ins.split()[1])]], pos, depth + 1, in_cb)
+            pos = new
+            if not pos:
+                break
+        return pos
+    return method in bodies and n in run(bodies[method], {0})
+
+
+METHOD_OF = {"ingest": "ingest", "ingest_error": "ingest_error", "ingest_sensitive": "ingest_sensitive",
+             "digest": "digest", "autophagy": "autophagy", "clearbin": "clear_recycling_bin"}
+
+
 class C13(Prop):
     id = "C13"
     title = "Waste handling never hangs, stays bounded and accounts for every item"
@@ -225,6 +288,9 @@ class C13(Prop):
             waste.created_at = clock.now()
             return orig(waste)
         lys.ingest = ingest_at_fake_time
+        ctx["reentrant"] = "RLock" in type(lys._lock).__name__
+        ctx["lockev"] = []
+        lys._lock = TraceLock(lys._lock, ctx["lockev"])
         ctx["lys"] = lys
         return ctx
 
@@ -302,7 +368,13 @@ class C13(Prop):
             return (3, str(v.get("seq")))
         if k.startswith("error_count_E") and k[13:].isdigit():
             return (1000 + int(k[13:]), "?")
-        return (999999, "unknown-key")
+        # a key no known digester produces: try to attribute it through its value
+        src = None
+        if isinstance(v, dict):
+            src = v.get("seq", (v.get("context") or {}).get("seq") if isinstance(v.get("context"), dict) else None)
+        elif isinstance(v, int) or (isinstance(v, str) and v.isdigit()):
+            src = int(v)
+        return (999999, str(src) if src is not None else "unknown-key")
 
     def _show_bin(self, d):
         return "[" + ",".join(f"{k}:{v}" for k, v in sorted(self._kv(k, v) for k, v in d.items())) + "]"
@@ -373,7 +445,9 @@ class C13(Prop):
                     d, snap = self._dump(ctx)
                     obs.append("ok | " + d)
                 elif self._wellformed(t):
+                    del ctx["lockev"][:]
                     kind, val = util.call_guarded(lambda: self._do(ctx, t), timeout=self._timeout())
+                    evs = list(ctx["lockev"])
                     if kind == "hang":
                         self.hangs_seen += 1
                         ctx["dead"] = True
@@ -388,6 +462,10 @@ class C13(Prop):
                     else:
                         head = val[0] if isinstance(val, tuple) else val
                         d, snap = self._dump(ctx)
+                        facts = getattr(self, "facts", None)
+                        if facts and facts.get("recognised") and not trace_is_path(facts, METHOD_OF[t[0]], evs):
+                            d += " lock-trace-not-a-path-of-the-extracted-shape[" + ",".join(evs) + "]"
+                        self.traces_checked = getattr(self, "traces_checked", 0) + 1
                         obs.append(head + " | " + d)
                 else:
                     obs.append("bad-op")
@@ -423,7 +501,7 @@ class C13(Prop):
         rng = random.Random(int(t[1]))
         progs = [[op.split(",") for op in p.split(";")] for p in t[2:4]]
         sched = util.Sched(util.burst_schedule(rng, 2, 600), [self.file])
-        reentrant = "RLock" in type(lys._lock).__name__
+        reentrant = ctx["reentrant"]
         real = lys._lock
         lys._lock = util.SLock(sched, reentrant=reentrant)
         before = {"ing_calls": ctx["seq"]}
@@ -461,17 +539,21 @@ class C13(Prop):
         types = {}                # seq -> type token
         queued = []               # seqs in the queue after the previous call
         expired, processed = set(), []
+        prev_bin = []
         for idx, (line, o, snap) in enumerate(zip(case["lines"], obs, snaps)):
             t = line.split()
             if t[0] == "cfg" and o == "ok":
                 mq, at = int(t[1]), int(t[2])
                 toxic_builtin, ontox = t[5] == "b", t[6] == "set"
                 n_ing, types, queued, expired, processed = 0, {}, [], set(), []
+                prev_bin = []
                 continue
             if o in ("bad-op", "dead") or mq is None:
                 continue
             is_call = t[0] in ("ingest", "ingest_error", "ingest_sensitive", "digest", "autophagy", "conc")
             if not is_call:
+                if snap is not None and "bin" in snap:
+                    prev_bin = snap["bin"]
                 continue
             if t[0].startswith("ingest"):
                 types[n_ing] = "tox" if t[0] == "ingest_sensitive" else ("fop" if t[0] == "ingest_error" else t[1])
@@ -529,7 +611,13 @@ class C13(Prop):
                     if s in now or s in expired:
                         out.append(Violation("fate_partition", "a digested item is neither queued nor expired",
                                              f"item #{s}", idx))
-            # 4. sensitive items never in the recycling bin
+            # 4. sensitive items never in the recycling bin: no entry attributable to one, and the bin does not
+            #    change during a call in which only sensitive items were processed
+            if toxic_builtin and t[0] != "conc" and t[0] != "autophagy" and left and \
+                    all(types.get(s_) == "tox" for s_ in left) and snap["bin"] != prev_bin:
+                out.append(Violation("toxic_never_recycled", "bin unchanged by a call that processed only sensitive items",
+                                     f"bin {prev_bin} -> {snap['bin']}", idx))
+            prev_bin = snap["bin"]
             if toxic_builtin:
                 for k, src in snap["bin"]:
                     if src.isdigit() and types.get(int(src)) == "tox":
